@@ -3982,7 +3982,8 @@ def scan_package_methods(trees):
     if name in vocab or len(defs) != 1 or defs[0] is None or name.startswith('__'):
       continue
     m = defs[0]
-    if m.decorator_list or not m.args.args:
+    decs_ = [ast.unparse(d) for d in m.decorator_list]
+    if decs_ not in ([], ['property']) or not m.args.args:
       continue
     eb = _expression_body(m)
     if eb is None:
@@ -3992,7 +3993,9 @@ def scan_package_methods(trees):
     comp_bound = {x.id for c in ast.walk(expr) if isinstance(c, ast.comprehension) for x in ast.walk(c.target) if isinstance(x, ast.Name)}
     if (free - comp_bound) - {'bool', 'len', 'str', 'int', 'tuple', 'list', 'isinstance', 'any', 'all', 'sorted', 'min', 'max'}:
       continue      # it reads module names: only meaningful in its own module
-    _PKG_METHODS[name] = (params[0], params[1:], expr)
+    if decs_ == ['property'] and len(params) != 1:
+      continue
+    _PKG_METHODS[name] = (params[0], params[1:], expr, decs_ == ['property'])
 
 
 def inline_package_methods(tree, modname):
@@ -4004,9 +4007,27 @@ def inline_package_methods(tree, modname):
       parents[id(c)] = n
   count = 0
   for n in list(ast.walk(tree)):
-    if isinstance(n, ast.Call) and isinstance(n.func, ast.Attribute) and n.func.attr in _PKG_METHODS and isinstance(n.func.value, ast.Name) \
+    if isinstance(n, ast.Attribute) and isinstance(n.ctx, ast.Load) and n.attr in _PKG_METHODS and _PKG_METHODS[n.attr][3] \
+        and isinstance(n.value, ast.Name) and not (isinstance(parents.get(id(n)), ast.Call) and parents[id(n)].func is n):
+      # a new read-only property of a class of the package
+      selfn, _ps, expr, _isprop = _PKG_METHODS[n.attr]
+      rep = _Subst({selfn: n.value}, {}).visit(copy.deepcopy(expr))
+      ast.copy_location(rep, n)
+      par = parents.get(id(n))
+      if par is not None:
+        for fld, v in ast.iter_fields(par):
+          if v is n:
+            setattr(par, fld, rep)
+          elif isinstance(v, list):
+            for j, x in enumerate(v):
+              if x is n:
+                v[j] = rep
+        count += 1
+      continue
+    if isinstance(n, ast.Call) and isinstance(n.func, ast.Attribute) and n.func.attr in _PKG_METHODS and not _PKG_METHODS[n.func.attr][3] \
+        and isinstance(n.func.value, ast.Name) \
         and not n.keywords and not any(isinstance(a, ast.Starred) for a in n.args):
-      selfn, params, expr = _PKG_METHODS[n.func.attr]
+      selfn, params, expr, _isprop = _PKG_METHODS[n.func.attr]
       if len(n.args) != len(params) or not all(isinstance(a, (ast.Name, ast.Constant, ast.Attribute)) for a in n.args):
         continue
       m = {selfn: n.func.value}
